@@ -21,6 +21,17 @@ class SObj:
         return f'SObj({self.cls}, {self.fields})'
 
 
+class SOpt:
+    """An optional non-record value: `value`, or None when the z3 Bool `none_if` holds."""
+
+    def __init__(self, value, none_if):
+        self.value = value
+        self.none_if = none_if
+
+    def __repr__(self):
+        return f'SOpt({self.value!r})'
+
+
 class SSlice:
     def __init__(self, start, stop, step=None):
         self.start, self.stop, self.step = start, stop, step
